@@ -121,6 +121,16 @@ def run(v, tier, rng):
             defs.append("%s\tEQU\t%s\n" % (rng.choice(enames), b % tuple(rng.choice(enames + ["7"]) for _x in range(b.count("%s")))))
         use = rng.choice(["\tDW\t%s\n", "\tMOV\tAX,%s\n", "\tDB\t%s+1\n", "\tMOV\tCX,[BX+%s]\n", "\tRESB\t%s\n"])
         add("equgraph", text="".join(defs) + "".join(use % x for x in rng.sample(enames, 3)))
+    # rings of every length that close through unexpanded definitions, behind a forward reference (always present; the
+    # guard walks a Go map, so each ring is run several times)
+    for nmid in (0, 1, 2, 3, 4, 6):
+        for closing in ("(%s+R)+S", "%s+1", "(%s*2)+R", "2*(%s+R)"):
+            names = ["M%d" % k for k in range(nmid)]
+            chain = ["A"] + names
+            defs = ["A\tEQU\tQ\n"] + ["%s\tEQU\t(%s+R)+S\n" % (chain[k + 1], chain[k]) for k in range(nmid)] + ["Q\tEQU\t" + closing % chain[-1] + "\n"]
+            for rep in range(3):
+                for use in ("\tMOV\tAX,Q\n", "\tDW\t%s\n" % chain[-1], "\tDB\tA+1\n\tHLT\n"):
+                    add("equring", text="".join(defs) + use + "; run %d\n" % rep)
     # scaling: length and nesting depth
     scale = []
     for nlines in ([1000, 10000] if tier == "quick" else [1000, 10000, 100000]):
